@@ -304,3 +304,96 @@ type closeOnExc struct{}
 func (closeOnExc) HandleException(ctx netty.ExceptionContext, ex netty.Exception) {
 	ctx.Channel().Close(ex)
 }
+
+// stackedTrial: two frame decoders stacked (an envelope decoder in front of a record decoder). Every envelope holds either
+// exactly one complete record or a record that is longer than what is left of its envelope; the exception of a cut record
+// is consumed and the channel stays open. Delivered = the complete records, in order: a record never reaches beyond the
+// end of its envelope into the next one.
+func stackedTrial(c *core.Ctx, id string, idx int) {
+	rng := c.Rand("stacked", idx)
+	outer := []string{"varint", "length-field"}[idx%2]
+	inner := []string{"fixed4", "length-field-1"}[(idx/2)%2]
+	var hs []netty.Handler
+	if outer == "varint" {
+		hs = append(hs, frame.VarintLengthFieldCodec(64))
+	} else {
+		hs = append(hs, frame.LengthFieldCodec(binary.BigEndian, 64, 0, 2, 0, 2))
+	}
+	if inner == "fixed4" {
+		hs = append(hs, frame.FixedLengthCodec(4))
+	} else {
+		hs = append(hs, frame.LengthFieldCodec(binary.BigEndian, 32, 0, 1, 0, 1))
+	}
+	sink := &pktSink{}
+	hs = append(hs, sink)
+	var stream []byte
+	var want [][]byte
+	var kinds []string
+	k := 2 + rng.Intn(6)
+	for i := 0; i < k; i++ {
+		rec := make([]byte, 4)
+		for j := range rec {
+			rec[j] = byte('A' + rng.Intn(26))
+		}
+		cut := i < k-1 && rng.Intn(3) == 0
+		var env []byte // what the envelope holds
+		if inner == "fixed4" {
+			env = rec
+			if cut {
+				env = rec[:rng.Intn(4)]
+			}
+		} else {
+			env = append([]byte{4}, rec...)
+			if cut {
+				env = env[:1+rng.Intn(4)] // the record header promises 4 bytes, the envelope ends earlier
+			}
+		}
+		if outer == "varint" {
+			stream = append(stream, byte(len(env)))
+		} else {
+			stream = append(stream, 0, byte(len(env)))
+		}
+		stream = append(stream, env...)
+		if cut {
+			kinds = append(kinds, "cut")
+		} else {
+			kinds = append(kinds, "whole")
+			want = append(want, rec)
+		}
+	}
+	tr := mon.NewRecTransport()
+	for w := stream; len(w) > 0; {
+		n := 1 + rng.Intn(len(w))
+		tr.Feed(mon.ReadStep{Data: w[:n]})
+		w = w[n:]
+	}
+	rig := mon.NewRig(mon.RigOpts{Mode: mon.Sync, NoPark: true, Tr: tr, Handlers: hs, QuietTail: true})
+	defer rig.Dispose()
+	for dl := time.Now().Add(10 * time.Second); !(tr.ScriptExhausted() && tr.InRead() > 0) && !tr.IsClosed(); {
+		if time.Now().After(dl) {
+			c.Inconclusive(id, "watchdog: stacked-decoder script not consumed")
+			return
+		}
+		time.Sleep(50 * time.Microsecond)
+	}
+	c.Count("stacked_decoder_trials", 1)
+	c.Sig("stacked", outer, inner, fmt.Sprint(kinds))
+	sink.mu.Lock()
+	got := sink.msgs
+	sink.mu.Unlock()
+	where := fmt.Sprintf("%s envelopes holding %s records, envelopes %v", outer, inner, kinds)
+	for i := 0; i < len(got) || i < len(want); i++ {
+		switch {
+		case i >= len(want):
+			c.Violation("C08:stacked-decoders-phantom-frame", id, fmt.Sprintf("%s: extra message #%d %q; complete records were %s", where, i, got[i], quoteAll(want)), nil)
+			return
+		case i >= len(got):
+			c.Count("stacked_frames_missing", 1)
+			return
+		case string(got[i]) != string(want[i]):
+			c.Violation("C08:stacked-decoders-record-crosses-its-envelope", id, fmt.Sprintf("%s: message #%d is %q, the complete record was %q: a record cut short by the end of its envelope was completed with bytes of the next envelope", where, i, got[i], want[i]), nil)
+			return
+		}
+		c.Count("stacked_frames_checked", 1)
+	}
+}
